@@ -53,7 +53,8 @@ def run(ctx):
         s = zoo.write_and_load(F, spec, path)
         k = int(rng.integers(1, D + 1))
         pos = [int(x) for x in rng.permutation(D)[:k]]
-        chans = [s.channels[p] if rng.random() < 0.5 else p for p in pos]
+        # by name, by position, or by position counted from the last channel
+        chans = [s.channels[p] if rng.random() < 0.45 else (p if rng.random() < 0.65 else p - D) for p in pos]
         # --- to_rfi, settings from file or overridden
         at = ag = None
         if rng.random() < 0.3:
@@ -71,7 +72,7 @@ def run(ctx):
         kk = int(rng.integers(1, k + 1))
         mpos = pos[:kk]
         crv = [zoo.make_curve(*p) for p in zoo.power_curves(rng, kk)]
-        mchans = [s.channels[p] if rng.random() < 0.5 else p for p in mpos]
+        mchans = [s.channels[p] if rng.random() < 0.45 else (p if rng.random() < 0.65 else p - D) for p in mpos]
         mef = F.transform.to_mef(rfi, mchans if rng.random() < 0.7 else None, crv, mchans)
         m2 = F.gate.high_low(mef, gate_ch, full_output=True).mask
         ctx.counters['chk:commute'] += 1
